@@ -90,19 +90,25 @@ impl Ty {
     pub fn from_name(s: &str) -> Option<Ty> {
         ALL_TYPES.iter().copied().find(|t| t.name() == s)
     }
-    /// a Socket-Type a raw peer can announce to be admitted
-    pub fn peer_type(&self) -> &'static str {
+    /// every Socket-Type a peer may legally announce to this type (RFC 28-30), the usual one first
+    pub fn peer_types(&self) -> &'static [&'static str] {
         match self {
-            Ty::Pub => "SUB",
-            Ty::Sub => "PUB",
-            Ty::Req => "REP",
-            Ty::Rep => "REQ",
-            Ty::Dealer => "ROUTER",
-            Ty::Router => "DEALER",
-            Ty::Pull => "PUSH",
-            Ty::Push => "PULL",
-            Ty::XPub => "SUB",
+            Ty::Pub => &["SUB", "XSUB"],
+            Ty::Sub => &["PUB", "XPUB"],
+            Ty::Req => &["REP", "ROUTER"],
+            Ty::Rep => &["REQ", "DEALER"],
+            Ty::Dealer => &["ROUTER", "REP", "DEALER"],
+            Ty::Router => &["DEALER", "REQ", "ROUTER"],
+            Ty::Pull => &["PUSH"],
+            Ty::Push => &["PULL"],
+            Ty::XPub => &["SUB", "XSUB"],
         }
+    }
+    /// the Socket-Type the raw peers of the scenario in progress announce: the usual one, or - when the job's
+    /// parameters say `"peer_variant": n` - the n-th legal one
+    pub fn peer_type(&self) -> &'static str {
+        let all = self.peer_types();
+        all[PEER_VARIANT.with(|v| v.get()) % all.len()]
     }
     pub fn can_recv(&self) -> bool {
         !matches!(self, Ty::Pub | Ty::Push)
@@ -122,6 +128,23 @@ pub enum AnySocket {
     Pull(PullSocket),
     Push(PushSocket),
     XPub(XPubSocket),
+}
+
+thread_local! {
+    static PEER_VARIANT: std::cell::Cell<usize> = const { std::cell::Cell::new(0) };
+}
+
+/// Wraps a scenario so that its raw peers announce the `variant`-th legal Socket-Type.
+pub fn with_peer_variant(variant: usize, scenario: explore::Scenario) -> explore::Scenario {
+    if variant == 0 {
+        return scenario;
+    }
+    Arc::new(move || {
+        PEER_VARIANT.with(|v| v.set(variant));
+        let r = scenario();
+        PEER_VARIANT.with(|v| v.set(0));
+        r
+    })
 }
 
 thread_local! {
@@ -434,10 +457,11 @@ pub fn job(
     max_execs: u64,
     scenario: impl Fn() -> Verdict + Send + Sync + 'static,
 ) -> Job {
+    let variant = params["peer_variant"].as_u64().unwrap_or(0) as usize;
     Job {
         name,
         params,
-        scenario: Arc::new(scenario),
+        scenario: with_peer_variant(variant, Arc::new(scenario)),
         bound,
         max_execs,
         initial: Vec::new(),
